@@ -1,7 +1,8 @@
 SPECIFICATION Spec
 CONSTANTS
-  Positions = {"stmt", "assign", "arg", "nested", "closure", "method"}
+  Positions = {"stmt", "assign", "arg", "nested", "closure", "method", "lambda"}
   RTypes = {"int", "string", "ptr", "slice", "struct"}
-  CalleeForms = {"call", "ident"}
-INVARIANTS TypeOK CalledOnce ValuesOnNil PanicOnErr ReturnOnErr DefaultOnErr NeverJunk Export
+  CalleeForms = {"call", "ident", "cmd"}
+  Layouts = {"one", "multi"}
+INVARIANTS TypeOK CalledOnce ValuesOnNil PanicOnErr ReturnOnErr DefaultOnErr FrameLine NeverJunk Export
 PROPERTY Terminates
